@@ -27,6 +27,7 @@ def classify_crash(cr):
         return (comp, 'hang')
     where = ''
     for fn, tag in (('BlindStrategies::operator()<GModel>', 'BlindStrategies_elementwise_model'),
+                    ('FastInformedBound::operator()<AIToolbox::POMDP::SparseModel', 'FastInformedBound_sparse_rewards'),
                     ('updateSubOptimalPaths', 'updateSubOptimalPaths'), ('deltaPrune', 'deltaPrune'), ('sawtoothInterpolation', 'sawtoothInterpolation'), ('LPInterpolation', 'LPInterpolation'),
                     ('cleanUp', 'cleanUp'), ('makeNewPomdp', 'makeNewPomdp'), ('selectReachableBeliefs', 'selectReachableBeliefs'),
                     ('backupNode', 'backupNode'), ('samplePoints', 'samplePoints'), ('expandLeaf', 'expandLeaf'),
@@ -41,6 +42,8 @@ def classify_crash(cr):
         what = 'assertion'
     if where == 'BlindStrategies_elementwise_model':
         comp = 'BlindStrategies'
+    if where == 'FastInformedBound_sparse_rewards':       # reached through FIB itself, SARSOP, GapMin and the kernels' set-up alike
+        comp = 'FastInformedBound'
     return (comp, what + ('_in_' + where if where else ''))
 
 
@@ -109,9 +112,9 @@ SPEC = {
     'driver_timeout': {'quick': 1800, 'thorough': 5400},   # trace validation of ~5000 snapshots in exact rationals
 
     'classify_crash': classify_crash,
-    'rule': 'one case = one (POMDP, solver) pair; 19 fixed POMDPs (Tiger, 1-state clamp witnesses, corner/face initial beliefs, all-negative rewards, two S=5 GapMin regression instances, '
-            '4 instances with (action, observation) pairs impossible for every successor and rewards of one sign, 2 with transition probabilities 2^-21 below the library tolerance, the cut-off witness) then '
-            '31 (quick) / 291 (thorough) seeded dyadic POMDPs S<=4(5) A<=3 O<=3, discounts 1/2..15/16 (and 0.9/0.95/0.3), initial belief corner/face/interior; a quarter gets impossible (a,o) pairs '
+    'rule': 'one case = one (POMDP, solver) pair; 22 fixed POMDPs (Tiger, 1-state clamp witnesses, corner/face initial beliefs, all-negative rewards, two S=5 GapMin regression instances, '
+            '4 instances with (action, observation) pairs impossible for every successor and rewards of one sign, 2 with transition probabilities 2^-21 below the library tolerance, the two cut-off witnesses, 2 sparse models with unstored zero rewards) then '
+            '28 (quick) / 288 (thorough) seeded dyadic POMDPs S<=4(5) A<=3 O<=3, discounts 1/2..15/16 (and 0.9/0.95/0.3), initial belief corner/face/interior; a quarter gets impossible (a,o) pairs '
             '(half of those rewards of one sign); model kind dense 1/2, sparse Eigen 1/4, element-wise user model 1/4 (where the instantiation compiles: compile probes); '
             'SARSOP/GapMin run in a forked child under a 40 s / 120 s wall budget (completed iterations kept); solvers: BlindStrategies (both starts), FIB+QMDP, PBVI, PERSEUS, SARSOP (<=30/80 observed iterations), GapMin (<=12/30), '
             'look-ahead kernels + helper contracts (updateBelief*, beliefExpectedReward, findBestAtPoint, extractDominated, checkEqualProbability). '
